@@ -60,6 +60,11 @@ func (t TStruct) Var(xs ...int) int {
 }
 func (t TStruct) Cat(p string, xs ...string) string                     { return p + strings.Join(xs, "") }
 func (t TStruct) WithCtx(ctx *pongo2.ExecutionContext, s string) string { return "ctx:" + s }
+func (t TStruct) Ctx3(ctx *pongo2.ExecutionContext, a, b, c int) int { return a*100 + b*10 + c }
+func (t TStruct) Ctx5(ctx *pongo2.ExecutionContext, a, b, c, d, e int) int {
+	return a*10000 + b*1000 + c*100 + d*10 + e
+}
+func (t TStruct) Sum3(a, b, c int) int { return a + b + c }
 func (t TStruct) ValArg(v *pongo2.Value) *pongo2.Value                  { return pongo2.AsValue(v.String() + "!") }
 func (t TStruct) Fail() (string, error)                                 { return "", errors.New("failed") }
 func (t TStruct) Two() (string, error)                                  { return "two", nil }
@@ -202,6 +207,15 @@ var c08Methods = map[string]method{
 		return &rv{kind: "str", s: o}, nil
 	}},
 	"WithCtx": {[]string{"str"}, false, false, func(s *rstruct, a []*rv) (*rv, error) { return &rv{kind: "str", s: "ctx:" + a[0].s}, nil }},
+	"Ctx3": {[]string{"int", "int", "int"}, false, false, func(s *rstruct, a []*rv) (*rv, error) {
+		return &rv{kind: "int", i: a[0].i*100 + a[1].i*10 + a[2].i}, nil
+	}},
+	"Ctx5": {[]string{"int", "int", "int", "int", "int"}, false, false, func(s *rstruct, a []*rv) (*rv, error) {
+		return &rv{kind: "int", i: a[0].i*10000 + a[1].i*1000 + a[2].i*100 + a[3].i*10 + a[4].i}, nil
+	}},
+	"Sum3": {[]string{"int", "int", "int"}, false, false, func(s *rstruct, a []*rv) (*rv, error) {
+		return &rv{kind: "int", i: a[0].i + a[1].i + a[2].i}, nil
+	}},
 	"ValArg":  {[]string{"val"}, false, false, func(s *rstruct, a []*rv) (*rv, error) { return &rv{kind: "str", s: rvString(a[0]) + "!"}, nil }},
 	"Fail":    {nil, false, false, func(s *rstruct, a []*rv) (*rv, error) { return nil, errRef }},
 	"Two":     {nil, false, false, func(s *rstruct, a []*rv) (*rv, error) { return &rv{kind: "str", s: "two"}, nil }},
@@ -530,7 +544,7 @@ func (g *c08Gen) structV(d int) *rstruct {
 	return s
 }
 
-var c08Idents = []string{"Name", "Items", "Sub", "M", "IM", "Any", "hidden", "a", "b", "k", "zz", "Greet", "Add", "Var", "Cat", "WithCtx", "ValArg", "Fail", "Two", "PtrName"}
+var c08Idents = []string{"Name", "Items", "Sub", "M", "IM", "Any", "hidden", "a", "b", "k", "zz", "Greet", "Add", "Var", "Cat", "WithCtx", "ValArg", "Fail", "Two", "PtrName", "Ctx3", "Ctx5", "Sum3"}
 
 func (g *c08Gen) step() pstep {
 	switch g.rg.intn(8) {
@@ -640,10 +654,11 @@ func runC08(r *run) {
 			emit(caseT{"shadow", (&world{}).args(src, gctx{{"v", mk(3)}})})
 		}
 		// shadowing: tag-set names over context keys over globals
-		w := &world{globals: gctx{{"g", gStr("G")}, {"x", gStr("GX")}, {"y", gStr("GY")}}}
-		ctx := gctx{{"x", gStr("CX")}, {"nv", gNil()}}
+		w := &world{globals: gctx{{"g", gStr("G")}, {"x", gStr("GX")}, {"y", gStr("GY")}, {"nv", gStr("GNV")}, {"gm", gMap([]string{"k"}, []*gval{gStr("GK")})}}}
+		ctx := gctx{{"x", gStr("CX")}, {"nv", gNil()}, {"gm", gNil()}}
 		for _, c := range [][2]string{{"{{ g }}{{ x }}{{ y }}", "GCXGY"}, {"{% set x = \"SX\" %}{{ x }}{{ y }}", "SXGY"}, {"{% with y=\"WY\" %}{{ x }}{{ y }}{% endwith %}{{ y }}", "CXWYGY"},
-			{"{% for g in \"ab\" %}{{ g }}{% endfor %}{{ g }}", "abG"}, {"{% macro m(x) %}{{ x }}{{ y }}{% endmacro %}{{ m(\"MX\") }}{{ x }}", "MXGYCX"}} {
+			{"{% for g in \"ab\" %}{{ g }}{% endfor %}{{ g }}", "abG"},
+			{"[{{ nv }}][{{ nv.name }}][{{ gm.k }}]{% if nv %}T{% else %}F{% endif %}{% if gm %}T{% else %}F{% endif %}", "[][][]FF"}, {"{% macro m(x) %}{{ x }}{{ y }}{% endmacro %}{{ m(\"MX\") }}{{ x }}", "MXGYCX"}} {
 			a := w.args(c[0], ctx)
 			a = append(a, "-", "-", hx(c[1]))
 			emit(caseT{"shadow", a})
@@ -696,6 +711,11 @@ func execC08(r *run, c caseT) {
 		default:
 			obs = obsOK(out)
 		}
+		// the same name denotes the same value when the compiled template is executed again
+		out2, xerr2, p2 := executeIn(tpl, pongo2.Context{"v": root.goValue(), "nothing": nil})
+		if p == nil && (p2 != nil || (xerr == nil) != (xerr2 == nil) || out2 != out) {
+			obs = "unstable:" + obs
+		}
 	}
 	id := r.emit(c.op, c.args, obs)
 	if id%499 == 0 {
@@ -703,6 +723,10 @@ func execC08(r *run, c caseT) {
 	}
 	if strings.HasPrefix(obs, "panic") {
 		r.reject(id, "panic", map[string]any{"path": path, "observed": obs})
+		return
+	}
+	if strings.HasPrefix(obs, "unstable:") {
+		r.reject(id, "the same path denotes different values in two executions of the compiled template", map[string]any{"path": path, "observed": obs})
 		return
 	}
 	if len(steps) > 0 {
